@@ -94,7 +94,7 @@ def concatenate(signals, /, axis=0):
             raise TypeError("All signals must have same type!")
 
     ref_sr = signals[0].sample_rate
-    if not all(u.isclose(ref_sr, s.sample_rate) for s in signals):
+    if not all(u.isclose(ref_sr, s.sample_rate, rtol=1e-12) for s in signals):
         raise ValueError("Signals must have the same sample_rate!")
 
     ref_st = None
